@@ -274,6 +274,26 @@ func (r *Run) ReplayWitnesses(fails func(f Finding, w Witness) (bool, string)) {
 	}
 }
 
+// KnownSignature reports a hit of a listed open finding that is identified by its failure signature
+// (call site + error) rather than by one input. Returns false if no such open finding is listed.
+func (r *Run) KnownSignature(id string) bool {
+	r.mu.Lock()
+	defer r.mu.Unlock()
+	for i := range r.findings {
+		f := &r.findings[i]
+		if f.ID == id && f.Status == "open" {
+			r.knownHits++
+			r.counters["known_finding_signature:"+id]++
+			if !r.knownPrinted[f.ID] {
+				r.knownPrinted[f.ID] = true
+				fmt.Printf("KNOWN-FINDING: property=%s id=%s %s\n", r.Prop, f.ID, f.What)
+			}
+			return true
+		}
+	}
+	return false
+}
+
 // IsKnown reports whether key is a listed open witness.
 func (r *Run) IsKnown(key string) bool {
 	_, ok := r.openKeys[key]
